@@ -184,7 +184,8 @@ class Values(Sub):
     n = {"quick": 20000, "thorough": 400000}
     shards = {"quick": 4, "thorough": 8}
     rule = ("values of every type x a subset of {pickle protocols 0-5, copy, deepcopy}; non-trivial: state rebuilt by hand - second pass of an ambiguous time, "
-            "durations with years/months/weeks, inverted or absolute-inverted intervals, naive fold=1")
+            "durations with years/months/weeks, inverted or absolute-inverted intervals, naive fold=1; every value is first USED (arithmetic with each pendulum class, comparison, "
+            "printing, navigation) and must be unchanged by that")
 
     def strategy(self, ctx):
         return spec()
